@@ -99,9 +99,22 @@ def opTcCreate (j : Json) : Except String Json := do
   pure (Json.mkObj [("ok", .arr (ds.map fun d =>
     Json.arr #[.str d.name, .str d.src, .str d.u.toString, .str d.v.toString]).toArray)])
 
+def jExt (j : Json) : Except String Piecewise.Ext :=
+  match j with
+  | .str "inf" => pure .posInf
+  | .str "-inf" => pure .negInf
+  | other => do pure (.fin (← jRat other))
+
+def opPwEval (j : Json) : Except String Json := do
+  let thr ← (← jArr (← field j "thresholds")).mapM jExt
+  let rates ← (← jArr (← field j "rates")).mapM fun r => do (← jArr r).mapM jRat
+  let s : Piecewise.Schedule := { thresholds := thr, rates := rates, intercepts := ← rats j "intercepts" }
+  pure (Json.mkObj [("ok", oRats ((← rats j "x").map (Piecewise.eval s)))])
+
 def dispatch (j : Json) : Except String Json := do
   let op ← str j "op"
   match op with
+  | "pw_eval" => opPwEval j
   | "round" => opRound j
   | "conv" => do
     let u ← unitOf (← str j "u"); let v ← unitOf (← str j "v")
